@@ -2,6 +2,7 @@ package props
 
 import (
 	"fmt"
+	"strings"
 	"time"
 
 	"github.com/google/uuid"
@@ -181,6 +182,9 @@ func (c04) RunCase(c fw.Case, env *fw.Env) *fw.CaseResult {
 	cacheName := path + "/" + indexBucket(vp, sv)
 	nQueries := 10
 	tw := newTrainWatch(vp, sv)
+	// every second history of a configuration with a small training trigger starts with the
+	// "straddle" prologue below
+	straddle := tw.learned && tw.trigger <= 200 && !strings.Contains(vp, ".") && c.Seed%2 == 0
 	for step := 0; step < steps; step++ {
 		var op gen.Op
 		if step == 0 && vc.Quant == "pq" {
@@ -192,6 +196,37 @@ func (c04) RunCase(c fw.Case, env *fw.Env) *fw.CaseResult {
 				op.Points = append(op.Points, model.Point{Id: g.NewId(), Doc: g.Doc()})
 			}
 			g.PresentProb = keep
+		} else if straddle && step == 0 {
+			// directed prologue for a learned quantiser: stop three vectors short of the trigger, with
+			// eight more points that have no vector yet (the searches after this batch scan the index)
+			op = gen.Op{Kind: gen.OpInsert, Tag: "straddle-setup"}
+			keep := g.PresentProb
+			g.PresentProb = 1
+			for i := 0; i < tw.trigger-3+8; i++ {
+				d := g.Doc()
+				if i >= tw.trigger-3 {
+					delete(d, vp)
+				}
+				op.Points = append(op.Points, model.Point{Id: g.NewId(), Doc: d})
+			}
+			g.PresentProb = keep
+		} else if straddle && step == 1 {
+			// ... then ONE update takes the vector from three points and gives one to five others: the
+			// index holds trigger-3 vectors before and trigger-1 after, although trigger+2 items pass
+			// through the batch. The quantiser must stay untrained.
+			op = gen.Op{Kind: gen.OpUpdate, Tag: "straddle-update"}
+			with, without := 0, 0
+			for _, id := range m.SortedIds() {
+				if hasVec(m.Docs[id], vp, vc.Dim) && with < 3 {
+					with++
+					op.Points = append(op.Points, model.Point{Id: id, Doc: model.Doc{vp: model.DeleteValue}})
+				} else if !hasVec(m.Docs[id], vp, vc.Dim) && without < 5 {
+					without++
+					op.Points = append(op.Points, model.Point{Id: id, Doc: model.Doc{vp: g.Vector(vc.Dim, vc.Metric)}})
+				}
+			}
+			g.R.Shuffle(len(op.Points), func(a, b int) { op.Points[a], op.Points[b] = op.Points[b], op.Points[a] })
+			res.Stat("straddle_updates", 1)
 		} else {
 			op = h.Next(m)
 		}
